@@ -78,7 +78,7 @@ def unit_str(u):
 
 
 def ev(a, **kw):
-    rec = dict(a=a, u="-", n="-", ok=True, o=0, call="-", none=True, off=0, len=0, cap=0, exc="-", site="-")
+    rec = dict(a=a, u="-", n="-", ok=True, o=0, call="-", none=True, off=0, len=0, cap=0, tlv=-1, exc="-", site="-")
     rec.update(kw)
     return rec
 
@@ -148,12 +148,14 @@ def make_sim(case):
     raise ValueError(k)
 
 
-def value_offset(tag, nd):
+def value_offset(tag, nd, case=None):
     """where the returned octets start in tag memory / file (bytes), as the code located them"""
-    k = type(tag).__mro__
     name = tag.type
     if name in ("Type1Tag", "Type2Tag"):
         off = nd._ndef_tlv_offset
+        mem = (case or {}).get("mem")
+        if mem is not None and off + 1 < len(mem):
+            return off + (4 if mem[off + 1] == 0xFF else 2)        # the length format the image uses
         return off + (2 if nd.length < 255 else 4)
     if name == "Type3Tag":
         return 16
@@ -201,7 +203,7 @@ def run_case(case):
             nd = tag.ndef
             if nd is None:
                 return None
-            return dict(len=nd.length, cap=nd.capacity, olen=len(nd.octets), off=value_offset(tag, nd),
+            return dict(len=nd.length, cap=nd.capacity, olen=len(nd.octets), off=value_offset(tag, nd, case),
                         rd=bool(nd.is_readable), wr=bool(nd.is_writeable))
         r, exc = call("ndef", read_ndef)
         if exc is None:
@@ -215,7 +217,7 @@ def run_case(case):
                     ch = nd.has_changed                # one more complete read
                     if tag._ndef is None:              # the re-read failed: tag.ndef is gone
                         return None
-                    return dict(len=nd.length, cap=nd.capacity, olen=len(nd.octets), off=value_offset(tag, nd), ch=ch)
+                    return dict(len=nd.length, cap=nd.capacity, olen=len(nd.octets), off=value_offset(tag, nd, case), ch=ch)
                 r2, exc2 = call("changed", changed)
                 if exc2 is None:
                     if r2 is None:
